@@ -324,7 +324,7 @@ func runC15(c *core.Ctx) {
 	L := c.N(4, 5)
 	k := len(c15Texts)
 	total := wl.ShortCount(k, L)
-	for i := 0; i < total; i++ {
+	for i := 0; i < total && !c.Saturated(); i++ {
 		if !c.Mine(i) {
 			continue
 		}
@@ -356,7 +356,7 @@ func runC15(c *core.Ctx) {
 	// 2. random longer multisets (many duplicates force long suffix probing)
 	n2 := c.PerShard(c.N(120000, 6000000))
 	all := append(append([]string{}, c15Texts...), c15Extra...)
-	for i := 0; i < n2; i++ {
+	for i := 0; i < n2 && !c.Saturated(); i++ {
 		n := 2 + r.Intn(12)
 		if r.Intn(20) == 0 {
 			n = 20 + r.Intn(21)
@@ -384,7 +384,7 @@ func runC15(c *core.Ctx) {
 	}
 	// 3. arbitrary documents (soup with heading tokens, corpus mutants)
 	n3 := c.PerShard(c.N(150000, 6000000))
-	for i := 0; i < n3; i++ {
+	for i := 0; i < n3 && !c.Saturated(); i++ {
 		var src []byte
 		if i%2 == 0 {
 			src = wl.SoupFrom(r, c15Soup, 2+r.Intn(14))
